@@ -390,7 +390,26 @@ fn byzantine<B: SimField, E: FieldElement<BaseField = B>, H: ElementHasher<BaseF
 // ------------------------------------------------------------------------------------------------
 
 fn honest<B: SimField, E: FieldElement<BaseField = B>, H: ElementHasher<BaseField = B>>(ch: &mut Chooser, ctx: &mut Ctx, thorough: bool) {
-    let cfg = gen_fri_cfg(ch, if thorough { 13 } else { 11 });
+    // "big openings": 255 distinct coset rows of 16 elements of 24 or 32 bytes each - the opened
+    // values of the first layer then need more than 65535 bytes (the size at which a 16-bit
+    // length would wrap). Only reachable with folding 16 and the widest element types.
+    let big = E::ELEMENT_BYTES >= 24 && ch.chance("big.openings?", 1, 25);
+    let cfg = if big {
+        loop {
+            let c = FriCfg {
+                log_domain: if thorough && ch.chance("big.13?", 1, 3) { 13 } else { 12 },
+                blowup: [2usize, 4, 8][ch.index("big.blowup", 3)],
+                folding: 16,
+                rmax: [7usize, 15, 31, 127, 255][ch.index("big.rmax", 5)],
+                num_queries: 255,
+            };
+            if c.well_formed() && c.layers() > 0 {
+                break c;
+            }
+        }
+    } else {
+        gen_fri_cfg(ch, if thorough { 13 } else { 11 })
+    };
     let n = cfg.n();
     let domain = cfg.domain();
     let max_degree = n - 1;
@@ -468,6 +487,15 @@ fn honest<B: SimField, E: FieldElement<BaseField = B>, H: ElementHasher<BaseFiel
     // query phase: raw positions (duplicates and post-folding collisions included)
     let nonce = ch.pick("nonce", 4);
     let mut positions = channel.draw_positions(cfg.num_queries, domain, nonce);
+    if big {
+        // 255 distinct rows (the most one batch opening can carry), one position in each
+        let m = domain / cfg.folding;
+        let first = ch.index("big.first_row", m);
+        positions = (0..255usize).map(|k| (first + k) % m + (rng.below(cfg.folding as u64) as usize) * m).collect();
+        if E::ELEMENT_BYTES * cfg.folding * 255 > 65535 {
+            ctx.probe("first_layer_opened_values_exceed_65535_bytes");
+        }
+    }
     if ch.chance("dup.positions?", 1, 3) && !positions.is_empty() {
         let k = ch.index("dup.which", positions.len());
         positions.push(positions[k]);
